@@ -1,0 +1,70 @@
+"""
+Verification hook (add-only, inactive unless the environment variable
+WHATSHAP_VERIF_TRACE names a file): `whatshap phase` appends one JSON object per
+(chromosome, family) describing the exact instance handed to the phasing algorithm
+and what came back. Used only by the external verification harness.
+"""
+import json
+import os
+
+
+def enabled() -> bool:
+    return bool(os.environ.get("WHATSHAP_VERIF_TRACE"))
+
+
+def dump_read(read):
+    return {
+        "name": read.name,
+        "source_id": read.source_id,
+        "sample_id": read.sample_id,
+        "mapq": list(read.mapqs),
+        "variants": [[v.position, v.allele, v.quality] for v in read],
+    }
+
+
+def dump_readset(readset):
+    return [dump_read(read) for read in readset]
+
+
+def trace_family(**kw):
+    path = os.environ.get("WHATSHAP_VERIF_TRACE")
+    if not path:
+        return
+    pedigree = kw.pop("pedigree")
+    family = kw["family"]
+    n = len(kw["accessible_positions"])
+    genotypes = {}
+    likelihoods = {}
+    for sample in family:
+        genotypes[sample] = [list(pedigree.genotype(sample, i).as_vector()) for i in range(n)]
+        gls = []
+        for i in range(n):
+            gl = pedigree.genotype_likelihoods(sample, i)
+            gls.append(None if gl is None else [gl[g] for g in gl.genotypes()])
+        likelihoods[sample] = gls
+    dp_table = kw.pop("dp_table")
+    try:
+        cost = dp_table.get_optimal_cost()
+    except Exception:  # not every algorithm reports one
+        cost = None
+    try:
+        partitioning = list(dp_table.get_optimal_partitioning())
+    except Exception:
+        partitioning = None
+    superreads_list = kw.pop("superreads_list")
+    record = dict(kw)
+    record["all_reads"] = dump_readset(kw["all_reads"])
+    record["genotypes"] = genotypes
+    record["genotype_likelihoods"] = likelihoods
+    record["cost"] = cost
+    record["partitioning"] = partitioning
+    record["superreads"] = {
+        sample: dump_readset(sr) for sample, sr in zip(family, superreads_list)
+    }
+    record["overall_components"] = sorted(
+        [int(k), int(v)] for k, v in kw["overall_components"].items()
+    )
+    record["trios"] = [[t.father, t.mother, t.child] for t in kw["trios"]]
+    record["numeric_sample_ids"] = {s: kw["numeric_sample_ids"][s] for s in family}
+    with open(path, "a") as f:
+        f.write(json.dumps(record, default=list) + "\n")
